@@ -40,7 +40,7 @@ theorem refundOne_due {s : State} {h : Nat} {id : Id} (hs : Inv s) (hm : (h, id)
     ∃ c s1, RefundEff s h id c s1 := by
   obtain ⟨hwf, hq, hge, hcnt⟩ := hs
   obtain ⟨c, hget, hopen, hexp⟩ := hq.2.2 h id hm
-  obtain ⟨hsnd, hwt, hwp⟩ := hwf id c hget
+  obtain ⟨hsnd, hwt, hwp⟩ := hwf.2 id c hget
   have hclosed : (refunded c s.height).state ≠ .open := by simp [refunded]
   cases ht : c.transfer with
   | false =>
